@@ -1,7 +1,7 @@
 INIT Init
 NEXT Next
 CONSTANTS
-  MaxDepth = 3
+  MaxDepth = 2
 VIEW View
 CONSTRAINT Bound
 INVARIANTS EmitPath
